@@ -16,13 +16,39 @@ func backwardSlice(v ssa.Value, visit func(ssa.Value) bool) bool {
 // backwardSliceOpt: with direct set, the slice does not continue through calls
 // (only copies, conversions, loads, slicing, phis and locals): "the value itself".
 func backwardSliceOpt(v ssa.Value, direct bool, visit func(ssa.Value) bool) bool {
-	seen := map[ssa.Value]bool{}
-	var rec func(v ssa.Value, depth int) bool
-	rec = func(v ssa.Value, depth int) bool {
-		if v == nil || seen[v] || depth > 60 {
+	// ctx: the helper calls through whose results the slice entered the current function, innermost
+	// first; a parameter reached there stands for that call's argument only (a helper shared by three
+	// decoders does not mix what the three pass to it)
+	type frame struct {
+		call   *ssa.Call
+		parent *frame
+	}
+	type frameKey struct {
+		call   *ssa.Call
+		parent *frame
+	}
+	frames := map[frameKey]*frame{}
+	enter := func(call *ssa.Call, parent *frame) *frame {
+		k := frameKey{call, parent}
+		if f, ok := frames[k]; ok {
+			return f
+		}
+		f := &frame{call, parent}
+		frames[k] = f
+		return f
+	}
+	type seenKey struct {
+		v   ssa.Value
+		ctx *frame
+	}
+	seen := map[seenKey]bool{}
+	var recCtx func(v ssa.Value, depth int, ctx *frame) bool
+	recCtx = func(v ssa.Value, depth int, ctx *frame) bool {
+		if v == nil || seen[seenKey{v, ctx}] || depth > 60 {
 			return false
 		}
-		seen[v] = true
+		seen[seenKey{v, ctx}] = true
+		rec := func(v ssa.Value, depth int) bool { return recCtx(v, depth, ctx) }
 		if visit(v) {
 			return true
 		}
@@ -60,6 +86,9 @@ func backwardSliceOpt(v ssa.Value, direct bool, visit func(ssa.Value) bool) bool
 						idx = i
 					}
 				}
+				if ctx != nil && idx >= 0 && ctx.call.Call.StaticCallee() == fn {
+					return idx < len(ctx.call.Call.Args) && recCtx(ctx.call.Call.Args[idx], depth+1, ctx.parent)
+				}
 				ci := callIndexOf(sliceProg)
 				if idx >= 0 && !ci.asValue[fn] {
 					for _, r := range ci.callers[fn] {
@@ -81,7 +110,7 @@ func backwardSliceOpt(v ssa.Value, direct bool, visit func(ssa.Value) bool) bool
 			if call, isCall := ex.Tuple.(*ssa.Call); isCall {
 				if cal := call.Call.StaticCallee(); cal != nil && cal.Blocks != nil && funcPkgPath(cal) == sliceEnterHelpers && cal.Object() != nil && !cal.Object().Exported() && depth < 40 {
 					for _, r := range returnsOf(cal) {
-						if ex.Index < len(r.Results) && rec(retValue(r, ex.Index), depth+1) {
+						if ex.Index < len(r.Results) && recCtx(retValue(r, ex.Index), depth+1, enter(call, ctx)) {
 							return true
 						}
 					}
@@ -99,7 +128,7 @@ func backwardSliceOpt(v ssa.Value, direct bool, visit func(ssa.Value) bool) bool
 			if cal := call.Call.StaticCallee(); cal != nil && cal.Blocks != nil && funcPkgPath(cal) == sliceEnterHelpers && cal.Object() != nil && !cal.Object().Exported() && depth < 40 {
 				for _, r := range returnsOf(cal) {
 					for _, res := range r.Results {
-						if rec(res, depth+1) {
+						if recCtx(res, depth+1, enter(call, ctx)) {
 							return true
 						}
 					}
@@ -126,7 +155,7 @@ func backwardSliceOpt(v ssa.Value, direct bool, visit func(ssa.Value) bool) bool
 		}
 		return false
 	}
-	return rec(v, 0)
+	return recCtx(v, 0, nil)
 }
 
 // storedInto visits every value stored into the local a or into its fields/elements.
